@@ -112,6 +112,7 @@ class RegRequest:
     chain_faults: set = field(default_factory=set)
     faults: set = field(default_factory=set)  # ceremony- and format-level names ("C." names are also accepted here)
     base_time: Optional[datetime.datetime] = None
+    reuse_chain: object = None                # a ca.Chain built earlier: present byte-identical certificates again
     chain_validity: Optional[dict] = None     # validity windows (offsets from base_time) per chain member, see ca.build_chain
     snet_ts_shift_ms: int = 0                 # SafetyNet: timestampMs = base_time + this many milliseconds
     tpm_name_alg: int = tpm.TPM_ALG_SHA256
@@ -386,8 +387,8 @@ def _credential(b: _Build, attestation_object: bytes) -> dict:
 
 def _chain(b: _Build, leaf_priv, **kwargs) -> ca.Chain:
     """Attestation chain whose leaf certifies `leaf_priv`'s public key; records chain and trust roots."""
-    chain = ca.build_chain(leaf_priv.public_key(), leaf_privkey=leaf_priv, n_intermediates=b.req.n_intermediates,
-                           base_time=b.base_time, faults=b.chain_faults, validity=b.req.chain_validity, **kwargs)
+    chain = b.req.reuse_chain or ca.build_chain(leaf_priv.public_key(), leaf_privkey=leaf_priv, n_intermediates=b.req.n_intermediates,
+                                                base_time=b.base_time, faults=b.chain_faults, validity=b.req.chain_validity, **kwargs)
     b.chain = chain
     b.roots = {FMT_STRING[b.req.fmt]: [chain.root_pem()]}
     return chain
